@@ -205,6 +205,12 @@ theorem NF_findPair {idx : Expr} : ∀ {kvs : List Expr} {r : Expr}, NFL kvs = t
 theorem NF_getElem? {xs : List Expr} {i : Nat} {r : Expr} (hn : NFL xs = true) (h : xs[i]? = some r) :
     NF r = true := NFL_iff.mp hn r (List.mem_of_getElem? h)
 
+theorem nth?_some {xs : List Expr} {n : Int} {r : Expr} (h : nth? xs n = some r) : ∃ i : Nat, xs[i]? = some r := by
+  unfold nth? at h
+  split at h
+  · cases h
+  · exact ⟨_, h⟩
+
 theorem NF_index {x idx r : Expr} (hx : NF x = true) (h : index x idx = some r) : NF r = true := by
   unfold index at h
   split at h
@@ -213,7 +219,8 @@ theorem NF_index {x idx r : Expr} (hx : NF x = true) (h : index x idx = some r) 
     | none => simp [hn] at h
     | some n =>
       simp only [hn, Option.bind_eq_bind, Option.bind_some] at h
-      exact NF_getElem? (by simpa [NF] using hx) h
+      obtain ⟨i, hi⟩ := nth?_some h
+      exact NF_getElem? (by simpa [NF] using hx) hi
   · cases hn : idx.asNumber? with
     | none => simp [hn] at h
     | some n =>
@@ -228,7 +235,8 @@ theorem NF_index {x idx r : Expr} (hx : NF x = true) (h : index x idx = some r) 
     | none => simp [hn] at h
     | some n =>
       simp only [hn, Option.bind_eq_bind, Option.bind_some] at h
-      exact NF_getElem? (by simpa [NF] using hx) h
+      obtain ⟨i, hi⟩ := nth?_some h
+      exact NF_getElem? (by simpa [NF] using hx) hi
   · cases h
 
 theorem NF_reduceBuiltin {b : BKind} {cs : List Expr} {r : Expr} (hn : NFL cs = true)
